@@ -27,7 +27,7 @@ ASSUMPTIONS = [
     "the with-block's own exception (raised by the harness inside the block) must propagate unchanged",
 ]
 FLOORS = {"quick": {"fault-runs": 4000, "histories": 150, "policy.refusing": 30, "reopen-checked": 300, "double-fault-both-fired": 200},
-          "thorough": {"fault-runs": 300000, "histories": 5000}}
+          "thorough": {"fault-runs": 300000, "histories": 4000}}
 
 PROJECT = {"udts": [], "programs": [], "extras": [], "tags": [
     {"name": "d", "scope": None, "type": "DINT", "dims": [], "instance": 3, "access": 0, "alias": False},
